@@ -1,4 +1,4 @@
-\* devDscNotForced2
+\* finding C16-dsc-not-mandatory, generator as found with DSC removed from the mandatory services: must violate Inv_W3 / Inv_W4
 SPECIFICATION Spec
 CONSTANTS
   Cand <- Cand3
